@@ -40,20 +40,23 @@ RewriteFrom(r, i, nsub) ==
 Rewrite(r, nsub) == RewriteFrom(r, 1, nsub)
 
 \* number of capturing groups of a pattern from the grammar below:
-\* "(" not followed by "?"
+\* "(" not followed by "?", or followed by "?P<" (a named group captures too)
 RECURSIVE CountGroups(_, _)
 CountGroups(p, i) ==
     IF i > Len(p) THEN 0
-    ELSE (IF Ch(p, i) = "(" /\ ~(i < Len(p) /\ Ch(p, i + 1) = "?") THEN 1 ELSE 0) + CountGroups(p, i + 1)
+    ELSE (IF Ch(p, i) = "(" /\ (~(i < Len(p) /\ Ch(p, i + 1) = "?") \/ (i + 3 <= Len(p) /\ SubSeq(p, i + 1, i + 3) = "?P<")) THEN 1 ELSE 0)
+         + CountGroups(p, i + 1)
 
 \* a|ab, a+?, (a|ab)(b|) : leftmost-first and leftmost-longest matching differ
 Atoms == {"a", "b", ".", "[ab]", "(a)", "(a|b)", "(b)(a)", "a*", "(ab)+", "^a", "b$", "a?", "((a)b)", "(?:a)b", "x",
-          "a|ab", "a+?", "(a|ab)(b|)"}
+          "a|ab", "a+?", "(a|ab)(b|)", "(?P<x>a)", "(?P<x>a)(?P<yy>b)", "(?i)A", "(?s)a.b"}
 Invalid == {"(", "[a", "a**", "(a", "a)", "*a"}
 Patterns == Atoms \cup {x \o y : x \in Atoms, y \in {"b", "(a)", "a*", "(a|b)"}}
 Subjects == {"", "a", "b", "ab", "aab", "abab", "xay"}
 Templates == {"", "-", "$1", "$2", "[$1]", "$1$2", "$2$1", "$0", "$12", "$10", "x$1y", "$", "$$", "$3", "${1}", "$1a",
-              "$1x$1y", "$1$1a", "$2a$2b$1c", "$1-$1-$1", "a$2$2"}
+              "$1x$1y", "$1$1a", "$2a$2b$1c", "$1-$1-$1", "a$2$2",
+              \* names: $x is the group NAMED x (empty when there is none), ${yy}, a '$' before other characters
+              "$x", "[$x]", "${x}", "$yy-${yy}", "$x1", "$_", "a$", "$ 1", "$-", "$${1}", "${", "$}"}
 
 VARIABLES ph, p, s, r
 vars == <<ph, p, s, r>>
